@@ -42,7 +42,7 @@ Inductive wpc :=
 | WEnq (d : nat)      (* d commands queued so far; when d = k: about to read haveWALWriter (wal.go:788) *)
 | WSend               (* haveWALWriter was true; about to send its own token f                (wal.go:795) *)
 | WWait               (* token sent; blocked in <-f                                           (wal.go:796) *)
-| WInl (f : fl)       (* haveWALWriter was false: FlushToWAL in the writer's own goroutine    (wal.go:789) *)
+| WInl (f : fl)       (* haveWALWriter was false: FlushToWAL in the writer's own goroutine, under wf.syncFlushMu *)
 | WRet (r : rkind).   (* WriteCSM returned nil *)
 
 Inductive lkind := KTok (f : nat) | KTick | KShut.
@@ -136,6 +136,19 @@ Definition fl_step (f : fl) (s : st) : option (option fl * st) :=
 Definition after_flush (k : lkind) : lpc :=
   match k with KTok f => LAck f | KTick => LIdle | KShut => LShutCkpt end.
 
+(** wf.syncFlushMu (since /repo 39160a5): the flushes RequestFlush runs in its callers' goroutines take
+    turns.  A writer at [WInl FCount] has not acquired the mutex yet; it may start only when no OTHER writer is
+    inside its inline FlushToWAL.  (The loop goroutine's own flushes do not take this mutex.) *)
+Definition inl_blocked (f : fl) (w : nat) (l : list wpc) : bool :=
+  match f with
+  | FCount => existsb (fun p => match snd p with
+                                | WInl FCount => false
+                                | WInl _ => negb (fst p =? w)
+                                | _ => false
+                                end) (combine (seq 0 (length l)) l)
+  | _ => false
+  end.
+
 Definition step (l : label) (s : st) : option st :=
   match l with
   | Enq w =>
@@ -162,6 +175,7 @@ Definition step (l : label) (s : st) : option st :=
   | InlFl w =>
       match nth_error (ws s) w with
       | Some (WInl f) =>
+          if inl_blocked f w (ws s) then None else
           match fl_step f s with
           | None => None
           | Some (None, s') => Some (set_w s' w (WRet RInline))
